@@ -240,6 +240,49 @@ class Runner:
         self.flags = set()
         self.deleted_nonlast = set()   # names that survived a non-last deletion
         self.deleted_names = set()
+        # a second, unrelated track with the SAME feature names in the opposite column order, of another size; it is
+        # only read, or written with the value already there, between the operations of the history: whatever is
+        # remembered per name (column numbers, values) must be remembered per track
+        self.decoy = gen.make_track([(5.0 * i, 2.0 * i, 1.0) for i in range(size + 1)],
+                                    t0_ms=gen.ms_from_fields(1970, 1, 3, 0, 0, 0), step_ms=1000)
+        self.decoy_model = {}
+        for j, name in enumerate(["c", "b", "a"]):
+            vals = [-(100.0 * (j + 1) + i) for i in range(size + 1)]
+            self.decoy.createAnalyticalFeature(name, list(vals))
+            self.decoy_model[name] = vals
+        self.nsteps = 0
+
+    def touch_decoy(self):
+        """None or a problem dict."""
+        d, dm = self.decoy, self.decoy_model
+        self.nsteps += 1
+        name = ["a", "b", "c"][self.nsteps % 3]
+        kind = (self.nsteps // 3) % 4
+        i = self.nsteps % (self.n + 1)
+        if kind == 0:
+            r = M.call(lambda: d[name, i])
+            ok = not M.is_raised(r) and M.feq(r, dm[name][i])
+        elif kind == 1:
+            def w():
+                d[name, i] = dm[name][i]
+            r = M.call(w)
+            ok = not M.is_raised(r)
+        elif kind == 2:
+            r = M.call(lambda: d[name])
+            ok = not M.is_raised(r) and M.seq_eq(list(r), dm[name])
+        else:
+            r = M.call(d.operate, "a+b*2")
+            ok = not M.is_raised(r) and M.seq_eq(list(r), [x + y * 2 for x, y in zip(dm["a"], dm["b"])])
+        self.ctx.monitor("decoy.unchanged")
+        if ok:
+            listed = M.call(d.getListAnalyticalFeatures)
+            ok = (not M.is_raised(listed)) and list(listed) == ["c", "b", "a"] and \
+                all(M.seq_eq(list(d.getAnalyticalFeature(k)), dm[k]) for k in dm) and \
+                all(len(o.features) == 3 for o in d.getObsList())
+        if not ok:
+            return {"what": "a second, unrelated track (same feature names, other column order) reads wrongly or was "
+                            "modified between the operations of the history", "access": [kind, name, i], "got": r}
+        return None
 
     def fresh(self, scalar=False):
         self.counter += 1
@@ -467,6 +510,14 @@ class Runner:
                     return {"what": "operation returned other values than the model", "op": list(op), "got": r,
                             "expected": expect_return}
         p = self.compare()
+        if p:
+            p["after_op"] = list(op)
+            return p
+        p = self.touch_decoy()
+        if p is None:
+            p = self.compare()
+            if p:
+                p["what"] += " (after an access to a second, unrelated track)"
         if p:
             p["after_op"] = list(op)
         return p
